@@ -179,6 +179,17 @@ ClaimsConflict(s, line) ==
   \/ s.st \in HunkStates /\ s.comb /\ line.c = "m_ours"
   \/ s.st = "MergeConflict"
 
+\* handle_submodule_log_line -> handle_additional_cases(SubmoduleLog): no pending-header handling here
+\* ("D19": the header still owed to the previous section is written first)
+HSubLog(s, k, line) ==
+  LET p == IF "D19" \in Fixes THEN Pending(Flush(s)) ELSE Flush(s)
+      a == Emit([p EXCEPT !.st = "SubmoduleLog", !.hh = 0])
+  IN Direct(a, Row("fileHdr", k, <<line.f, line.f, "submodule", 0, FALSE>>))
+\* handle_submodule_short_line
+HSubShort(s, k, line) ==
+  IF line.c = "subm" THEN [s EXCEPT !.st = "SubmoduleShort", !.hh = 0]
+  ELSE Direct(Emit(s), Row("subshort", k, <<>>))
+
 \* The handler chain.  Guards are those of the test_* functions for git input.
 \* detect_source (first line that says where the input comes from) and the start of old-side counting
 Detect(s, line) ==
@@ -199,6 +210,8 @@ StepD(s, k, line) ==
     [] c = "hh" /\ s.st # "MergeConflict" -> HHunkHeader(s, k, line)
     [] c \in {"oldmode", "newmode"} -> HMode(s, k, line)
     [] c = "binary" -> HBinary(s, k, line)
+    [] c = "sublog" -> HSubLog(s, k, line)
+    [] (c = "subm" /\ s.st = "HunkHeader") \/ (c = "subp" /\ s.st = "SubmoduleShort") -> HSubShort(s, k, line)
     [] ClaimsConflict(s, line) -> HConflict(s, k, line)
     [] s.st \in HunkStates -> HHunkLine(s, k, line)
     [] OTHER -> FallThrough(s, k)
